@@ -221,6 +221,13 @@ func runAll(c *Case, text []byte, senTxt, senSq []byte) []run {
 	bomLoad("1-byte", []int{-1})
 	bomLoad("3", []int{3})
 	if heavy {
+		// an empty first Read in front of the mark (finding C17-empty-first-read-bom, fixed c109a1a)
+		add("oj.MatchLoad/bom/empty-first-read", "oj", func(col *collector) error {
+			return oj.MatchLoad(&listReader{chunks: [][]byte{{}, append([]byte{}, bom...)}}, col.onData, exprs(ts)...)
+		})
+		add("sen.MatchLoad/bom/empty-first-read", "sen", func(col *collector) error {
+			return sen.MatchLoad(&listReader{chunks: [][]byte{{}, {}, append([]byte{}, bom[:2]...), append([]byte{}, bom[2:]...)}}, col.onData, exprs(ts)...)
+		})
 		bomLoad("whole", nil)
 		bomLoad("1,2", []int{1, 2})
 		bomLoad("2,1", []int{2, 1})
@@ -980,7 +987,7 @@ func main() {
 		fmt.Fprintln(os.Stderr, "harness failure:", e)
 		os.Exit(3)
 	}
-	rep.Rule = "cases (document tree with known member order written as JSON text, 1-3 target paths): corpus; boundary families (nested arrays/maps, index bookkeeping after a container closes, empty containers, overlapping and nested targets, filters, slices, from-the-end indexes); exhaustive boxes of small documents times all short targets and target pairs; seeded random documents with targets generalised from the document's own locations (child, index, wildcard, union, slice, descent, trailing filter; nested pairs); documents with a repeated member name (model vs code only). Each case runs oj.Match, oj.MatchString, oj.MatchLoad (whole, 1-byte, 3-byte, every 2-chunk split of short texts, a 4096 read-buffer boundary moved through the text), the same text behind a byte order mark through oj.Match and oj.MatchLoad with the reader cut inside and right after the mark (1-byte, 3, 1+2, 2+1, 3+1, 2, 4), sen.Match on the JSON text, on the SEN text (bare names, no commas) and on the SEN text with strings and names between single quotes, sen.MatchLoad byte by byte, on the single-quoted text whole/split/byte by byte, and behind a byte order mark; sen.Match and sen.MatchLoad on the text written with the token shapes only SEN has (sen-tight: plain-word strings bare, a bare word or number directly followed by [ or {, ] or } directly followed by a word, // and /* */ comments as separators, single-quoted strings) whole, byte by byte, one cut (a cut at EVERY position for short texts and for the stream senshape), 2- and 3-byte reads and the end of the 4096-byte read buffer inside the text; stream senshape: fixed documents made of those shapes under targets that report every element; a stream of strings and member names holding the other quote character; stream tok: the handler calls of oj.Tokenizer.Load (recorded reads: whole, with io.EOF on the last read, byte by byte, every 2-chunk split of short texts, random cuts with empty reads, a text over the 4096-byte read buffer) and oj.Tokenizer.Parse on fixed texts (literals, numbers at the int64/float/big borders, escapes, malformed texts, several documents, byte order marks) and on random documents (truncated, one byte replaced, behind a byte order mark, followed by a second document) against the Lean tokenizer model tokEvents — every event with its argument, also before an error, and the error/no-error outcome; duplicates (same document, targets, white space) are dropped; distinct_nontrivial counts cases whose expectation has at least one callback; PathMatch cases count one each"
+	rep.Rule = "cases (document tree with known member order written as JSON text, 1-3 target paths): corpus; boundary families (nested arrays/maps, index bookkeeping after a container closes, empty containers, overlapping and nested targets, filters, slices, from-the-end indexes); exhaustive boxes of small documents times all short targets and target pairs; seeded random documents with targets generalised from the document's own locations (child, index, wildcard, union, slice, descent, trailing filter; nested pairs); documents with a repeated member name (model vs code only). Each case runs oj.Match, oj.MatchString, oj.MatchLoad (whole, 1-byte, 3-byte, every 2-chunk split of short texts, a 4096 read-buffer boundary moved through the text), the same text behind a byte order mark through oj.Match and oj.MatchLoad with the reader cut inside and right after the mark (1-byte, 3, 1+2, 2+1, 3+1, 2, 4) and with empty first reads in front of it, sen.Match on the JSON text, on the SEN text (bare names, no commas) and on the SEN text with strings and names between single quotes, sen.MatchLoad byte by byte, on the single-quoted text whole/split/byte by byte, and behind a byte order mark; sen.Match and sen.MatchLoad on the text written with the token shapes only SEN has (sen-tight: plain-word strings bare, a bare word or number directly followed by [ or {, ] or } directly followed by a word, // and /* */ comments as separators, single-quoted strings) whole, byte by byte, one cut (a cut at EVERY position for short texts and for the stream senshape), 2- and 3-byte reads and the end of the 4096-byte read buffer inside the text; stream senshape: fixed documents made of those shapes under targets that report every element; a stream of strings and member names holding the other quote character; stream tok: the handler calls of oj.Tokenizer.Load (recorded reads: whole, with io.EOF on the last read, byte by byte, every 2-chunk split of short texts, random cuts with empty reads, a text over the 4096-byte read buffer) and oj.Tokenizer.Parse on fixed texts (literals, numbers at the int64/float/big borders, escapes, malformed texts, several documents, byte order marks) and on random documents (truncated, one byte replaced, behind a byte order mark, followed by a second document) against the Lean tokenizer model tokEvents — every event with its argument, also before an error, and the error/no-error outcome; duplicates (same document, targets, white space) are dropped; distinct_nontrivial counts cases whose expectation has at least one callback; PathMatch cases count one each"
 	rep.Rule += ". ORACLES: (a) parse-then-locate = oj.Parse/sen.Parse + Expr.Locate + Expr.First, outermost and document order computed from the harness's tree; a case has no such oracle (distribution no-oracle.*) when Locate and Get disagree on a target, and is then judged only by model == implementation and by agreement of the entry points. (b) expectation_from_model: on the counted cases the parse-then-locate oracle is SKIPPED and the Lean specification's `expected` (not the transducer model) is the reference: a target ends in a descent and the whole difference between the two is that Locate/Get do not enter a descent at a scalar reached by an earlier fragment ($.a.. with a number at a) while they do at the root and below containers; the branch is taken only if every entry point's callbacks equal the model's run, so a model/implementation disagreement can never be judged this way; those cases are still judged by implementation == specification, model == implementation and agreement of entry points and chunkings. (c) evaluator.slice-from-end-corner: only the cross-check specification vs parse-then-locate is skipped (Locate and Get agree there by accident), the implementation is still judged against parse-then-locate. KNOWN findings are decided per case: the implementation's callbacks must equal what the named deviation predicts for that case — for filter-free target sets the specification's expectation for the streamed reading of the targets (from-the-end indexes alone, slices alone, or both; driver op streamed, C17_streamed), for sets with a filter target the model's run — anything else is a violation"
 	rep.Notes = append(rep.Notes, fmt.Sprintf("expectation_from_model=%d of %d cases (parse-then-locate skipped, Lean specification is the reference; only where implementation == model; see rule (b))",
 		rep.Distribution["expectation_from_model"], rep.Evaluations))
